@@ -22,7 +22,99 @@ ASSUMPTIONS = ['indel reality/recall over genomes not decided', 'bit_set::BitSet
 PI = 'skalo::process_indels::'
 
 
+def check_graph_leaves(facts, chk, rule):
+    """finite-domain tables of the leaf predicates the bubble search is built on (necessary conditions of finding any
+    variant): an entry node needs two out-edges with *different* sample sets; exit = reverse complement of the entry"""
+    import itertools
+    from ..absint.interp import bitset
+    EX = 'skalo::extremities::'
+
+    def cmp_table():
+        I = Interp(facts)
+        subsets = [frozenset(c) for r in range(4) for c in itertools.combinations(range(3), r)]
+        bad = []
+        for a in subsets:
+            for b in subsets:
+                r = I.call_fn(EX + 'compare_samples', [RefV(Cell(bitset(a), 'a')), RefV(Cell(bitset(b), 'b'))])
+                if r.val != int(a != b):
+                    bad.append((sorted(a), sorted(b), r.val))
+        return bad
+    r = chk.guard(rule, rule + ':compare_samples', cmp_table)
+    if r is not None:
+        if r:
+            chk.violation(rule, rule + ':compare_samples', where=EX + 'compare_samples', evals=64,
+                          detail='compare_samples(%s, %s) = %s: two out-edges with different sample sets are not recognised as a bubble entry (%d of 64 pairs wrong)'
+                                 % (r[0][0], r[0][1], r[0][2], len(r)))
+        else:
+            chk.ok(rule, rule + ':compare_samples', EX + 'compare_samples', 'true iff the two sample sets differ (all 64 pairs of subsets of 3 samples)', evals=64)
+
+    def entry_exit():
+        g = facts.fn(EX + 'identify_good_kmers')
+        eb = ExprBuilder(g)
+        ins = [(bb, t) for bb, t in g.calls() if (t.callee.name or '').endswith('HashSet::insert')]
+        cs = [(bb, t) for bb, t in g.calls() if (t.callee.name or '') == EX + 'compare_samples']
+        if len(ins) != 2 or len(cs) != 1:
+            raise AnchorLost('identify_good_kmers: %d inserts, %d compare_samples calls' % (len(ins), len(cs)))
+        vals = [show(eb.operand(t.args[1])) for _, t in ins]
+        ok_vals = any(v.startswith('rev_comp(') and 'k_graph' not in v or v.startswith('rev_comp(') for v in vals) and any(not v.startswith('rev_comp(') for v in vals)
+        # both inserts only under compare_samples == true
+        sw = g.blocks[cs[0][1].target].term
+        fe = next((tg for v, tg in sw.targets if v == 0), None) if sw.k == 'switch' else None
+        heads = [bb for bb, c in g.calls() if (c.callee.name or '').endswith('::next') and g.in_cycle(bb)]
+        gated = fe is not None and all(bb not in reachable_without(g, fe, avoid_blocks=heads) for bb, _ in ins)
+        # the compared sets belong to the two combined (k+1)-mers of the same node
+        a0, a1 = show(eb.operand(cs[0][1].args[0])), show(eb.operand(cs[0][1].args[1]))
+        ok_args = 'combine_kmers(' in a0 and 'combine_kmers(' in a1 and a0 != a1
+        return ok_vals, gated, ok_args, vals
+    r = chk.guard(rule, rule + ':identify_good_kmers', entry_exit)
+    if r is not None:
+        ok_vals, gated, ok_args, vals = r
+        if ok_vals and gated and ok_args:
+            chk.ok(rule, rule + ':identify_good_kmers', EX + 'identify_good_kmers', 'entry = node, exit = rev_comp(node), both only when the sample sets of two combined out-edges differ')
+        else:
+            chk.violation(rule, rule + ':identify_good_kmers', where=EX + 'identify_good_kmers',
+                          detail='entry/exit recording: values %s ok=%s, gated by compare_samples=%s, compared sets are the two out-edges=%s' % (vals, ok_vals, gated, ok_args))
+
+    def seq_codec():
+        I = Interp(facts)
+        U = 'skalo::utils::'
+        bad = []
+        # rev_compl closure and DnaSequence closures: per-character tables
+        cl = facts.closures_of(U + 'rev_compl')
+        if len(cl) != 1:
+            raise AnchorLost('rev_compl closure')
+        for ch, want in zip('ACGT', 'TGCA'):
+            env = Agg('closure:' + cl[0].path, 0, [])
+            envv = RefV(Cell(env, 'env')) if cl[0].local_ty(1).startswith('&') else env
+            r = I.exec_body(cl[0], [envv, BV(32, ord(ch))])
+            if chr(r.val) != want:
+                bad.append(('rev_compl', ch, chr(r.val)))
+        enc = facts.closures_of(U + 'DnaSequence::encode')
+        dec = facts.closures_of(U + 'DnaSequence::decode') + facts.closures_of(U + 'DnaSequence::get_range')
+        if len(enc) != 1 or len(dec) != 2:
+            raise AnchorLost('DnaSequence closures: %d encode, %d decode' % (len(enc), len(dec)))
+        for ch in 'ACGTacgt':
+            env = Agg('closure:' + enc[0].path, 0, [])
+            envv = RefV(Cell(env, 'env')) if enc[0].local_ty(1).startswith('&') else env
+            code = I.exec_body(enc[0], [envv, RefV(Cell(BV(8, ord(ch)), 'nt'))])
+            for d in dec:
+                env2 = Agg('closure:' + d.path, 0, [])
+                envv2 = RefV(Cell(env2, 'env')) if d.local_ty(1).startswith('&') else env2
+                back = I.exec_body(d, [envv2, RefV(Cell(code, 'c'))])
+                bv = back.val if isinstance(back, BV) else None
+                if bv is None or chr(bv) != ch.upper():
+                    bad.append((d.name.split('::')[-1], ch, back))
+        return bad
+    r = chk.guard(rule, rule + ':sequence-codec', seq_codec)
+    if r is not None:
+        if r:
+            chk.violation(rule, rule + ':sequence-codec', where='skalo::utils', detail='(function, char, got) = %s' % (r[:3],))
+        else:
+            chk.ok(rule, rule + ':sequence-codec', 'skalo::utils', 'rev_compl char map; DnaSequence decode/get_range invert encode on A/C/G/T in either case', evals=20)
+
+
 def run(facts, chk, tier, only=None):
+    chk.guard('C18.leaf', 'C18.leaf:run', lambda: check_graph_leaves(facts, chk, 'C18.leaf'))
     p = facts.fn(PI + 'process_indels')
 
     # ---------------------------------------------------------------- genotype closure
